@@ -42,6 +42,7 @@ type Step struct {
 	Proof string `json:"proof"`
 	Peer  string `json:"peer"`
 	Role  string `json:"role"`
+	NewC  bool   `json:"newc"` // the model created connection C for this Tell/Ask
 }
 
 type ExpRec struct {
@@ -108,6 +109,8 @@ type world interface {
 	// Reply performs Tell/Ask of honest node n to an address it saw as Src of a delivered message.
 	Reply(n string, addr any, ask bool, payload []byte, timeout time.Duration) error
 	MListen(k, proof string)
+	// BindAnswer ties the model's connection c to the connection peer most recently opened to M.
+	BindAnswer(c int, peer string)
 	MDial(c int, t string) string
 	MPresent(c int, k, proof string) string
 	MAuth(c int, steps []Step) (string, [][]string)
@@ -278,15 +281,20 @@ func execute(b *Behaviour) []Event {
 		switch st.A {
 		case "tell", "reply":
 			e := r.expOf(st.P)
-			timeout := failWait
-			if e.Sure && e.St != "err" {
-				timeout = longWait
+			// only p2pkeswarm BLOCKS on a destination it cannot reach (until the context ends); the other two
+			// return by themselves, and a short deadline would only cut a slow handshake in half
+			timeout := longWait
+			if b.Kind == "p2pke" && !(e.Sure && e.St != "err") {
+				timeout = failWait
 			}
 			pl := payloadFor(b.ID, st.P, st.N)
 			if st.A == "tell" {
 				r.emit(Event{Ev: "send", A: "tell", P: st.P, From: st.N, X: st.X, T: st.T, Ask: st.Ask, Used: st.N, Exp: e})
 				err := w.Send(st.N, st.X, st.T, st.Ask, pl, timeout)
 				r.emit(Event{Ev: "ret", A: "tell", P: st.P, From: st.N, Res: errText(err)})
+				if st.NewC && st.T == "M" {
+					w.BindAnswer(st.C, st.N)
+				}
 			} else {
 				// the destination is the Src the node REALLY saw on payload re
 				r.mu.Lock()
@@ -299,6 +307,9 @@ func execute(b *Behaviour) []Event {
 				r.emit(Event{Ev: "send", A: "reply", P: st.P, From: st.N, X: sv.id, T: sv.owner, Ask: st.Ask, Used: st.N, Exp: e})
 				err := w.Reply(st.N, sv.addr, st.Ask, pl, timeout)
 				r.emit(Event{Ev: "ret", A: "reply", P: st.P, From: st.N, Res: errText(err)})
+				if st.NewC && sv.owner == "M" {
+					w.BindAnswer(st.C, st.N)
+				}
 			}
 			r.afterSend(st.P, e)
 		case "mlisten":
